@@ -550,7 +550,7 @@ class C17(Prop):
         if c['k'] == 'rfc':
             return summary(bytes.fromhex(obs))
         return [[[[bool(t), summary(bytes.fromhex(h))] for t, h in o['d']],
-                 [summary(bytes.fromhex(h)) for h in o['w']], o['c']] for o in obs['outs']]
+                 summary(b''.join(bytes.fromhex(h) for h in o['w'])), o['c']] for o in obs['outs']]
 
     # ---- oracle: the property read directly, against the harness' own RFC codec
     def oracle(self, c, obs):
